@@ -631,6 +631,10 @@ class _CasePathI(Interface):
     attrs = {'name': Str, 'parent': Any_}
 
 
+def _pp_command(trace):
+    return [e[1][0] for e in trace if e[0] == 'preprocessor-started'][0]
+
+
 def _pp_exit(trace):
     return [e[1] for e in trace if e[0] == 'preprocessor:returned']
 
@@ -638,11 +642,20 @@ def _pp_exit(trace):
 M.contract('exactly_lib.processing.preprocessor:PreprocessorViaExternalProgram.apply',
            params=dict(self=Inst(_preprocessor.PreprocessorViaExternalProgram, external_program=ListOf(Str)),
                        test_case_file_path=Iface(_CasePathI), test_case_source=Str),
-           returns=Str,
+           returns=Str, props=('C02', 'C17'), ghosts=dict(j=Int),
+           old=lambda self: len(self.external_program),
            ensures={'its output is the test case only if the preprocessor exited with 0': lambda trace:
                     _pp_exit(trace) == [0],
-                    'started once': lambda trace: len([e for e in trace if e[0] == 'preprocessor-started']) == 1},
-           raises={tcp.ProcessError: {'ensures': lambda trace: _pp_exit(trace) != [0]}},
+                    'started once': lambda trace: len([e for e in trace if e[0] == 'preprocessor-started']) == 1,
+                    # (C17) the preprocessor object belongs to the suite: every case of the suite is given to it
+                    'the command is the configured one plus the name of THIS case; the configured one is left as it is':
+                        lambda self, test_case_file_path, old, trace, j:
+                        len(self.external_program) == old
+                        and len(_pp_command(trace)) == old + 1
+                        and _pp_command(trace)[old] == str(test_case_file_path.name)
+                        and ((not (0 <= j and j < old)) or _pp_command(trace)[j] == self.external_program[j])},
+           raises={tcp.ProcessError: {'ensures': lambda self, old, trace:
+                                      _pp_exit(trace) != [0] and len(self.external_program) == old}},
            raises_only=())
 
 
